@@ -9,7 +9,6 @@ import (
 	"time"
 
 	"github.com/fatedier/frp/client/proxy"
-	v1 "github.com/fatedier/frp/pkg/config/v1"
 	"github.com/fatedier/frp/pkg/msg"
 )
 
@@ -118,14 +117,9 @@ func (s *clientState) raceRun(tok []string) (res string) {
 	}()
 	switch tok[0] {
 	case "upd":
-		s.epoch++
-		var cfgs []v1.ProxyConfigurer
-		for _, t := range tok[3:] {
-			f := strings.Split(t, ":")
-			c := buildProxy("p"+f[0], atoi(f[1]))
-			s.info[c] = cfgInfo{atoi(f[1]), s.epoch}
-			s.names["p"+f[0]] = true
-			cfgs = append(cfgs, c)
+		cfgs, err := s.loadCfgs(tok[3:])
+		if err != nil {
+			return "loaderr;" + hx(err.Error())
 		}
 		proxy.VerifSetTimings(hour, hour, hour)
 		s.tr.configured(tok[3:])
